@@ -442,10 +442,33 @@ def _dataset(da, x, y, k, m):
     ds["v"] = x
     if m % 2:
         ds["w"] = x * 2
-    for key in ds.keys():
-        for d in ds[key].dims:
-            if ds[key].axes[d] is not ds.axes[d]:
-                raise Violation("axis-not-shared", {"var": key, "dim": d}, sig={"op": "dataset"})
+    def shared(step):
+        for key in ds.keys():
+            for d in ds[key].dims:
+                if ds[key].axes[d] is not ds.axes[d]:
+                    raise Violation("axis-not-shared", {"var": key, "dim": d, "after": step}, sig={"op": "dataset"})
+                if ds[key].axes[d].size != ds[key].values.shape[ds[key].dims.index(d)]:
+                    raise Violation("dataset-variable-malformed", {"var": key, "dim": d, "after": step}, sig={"op": "dataset"})
+    shared("insertion")
+    pd = [x.dims[i] for i in plain_dims(x) if not is_grouped(x.axes[i]) and "," not in x.dims[i]]
+    if m >= 6 and pd:
+        # relabel through the dataset: a new axis given as bare labels (list / ndarray) or as an Axis, then an in-place change
+        d = pd[k % len(pd)]
+        n = ds.axes[d].size
+        new = [100 + 2 * i for i in range(n)][::-1] if m % 2 else ["L%d" % i for i in range(n)]
+        if m % 3 == 0:
+            ds.axes[d] = list(new)
+        elif m % 3 == 1:
+            ds.axes[d] = np.array(new, dtype=object if isinstance(new[0], str) else int)
+        else:
+            ds.axes[ds.dims.index(d)] = da.Axis(np.array(new, dtype=object if isinstance(new[0], str) else int), d)
+        shared("ds.axes[d] = labels")
+        if n:
+            ds.axes[d][0] = 999 if m % 2 else "zz"
+        shared("ds.axes[d][0] = label")
+        for key in ds.keys():
+            if n and ds[key].axes[d].values[0] != (999 if m % 2 else "zz"):
+                raise Violation("dataset-label-change-not-visible", {"var": key, "dim": d}, sig={"op": "dataset"})
     return ds["v"] if k % 2 else ds["w" if m % 2 else "v"]
 
 
